@@ -192,6 +192,16 @@ func (ss *segmentStack) Stats() *SegmentStackStats {
 	return rv
 }
 
+// statsWithChildren returns the stats for this segment stack summed
+// with those of all its child segment stacks, recursively.
+func (ss *segmentStack) statsWithChildren() *SegmentStackStats {
+	rv := ss.Stats()
+	for _, childSegStack := range ss.childSegStacks {
+		childSegStack.statsWithChildren().AddTo(rv)
+	}
+	return rv
+}
+
 // ChildCollectionNames returns an array of child collection name strings.
 func (ss *segmentStack) ChildCollectionNames() ([]string, error) {
 	var childCollections = make([]string, len(ss.childSegStacks))
